@@ -1,7 +1,7 @@
 (* C01 - Every added event has a verifying membership proof at every later version.
    Statement only; the proof is `exact` a lemma of Balloon/BalloonProofs.v. *)
 From QV Require Import Base.Util Base.HashSig History.HistModel History.HistSpec Hyper.HyperModel
-  Balloon.Balloon Balloon.BalloonProofs Properties.Instance.
+  Balloon.Balloon Balloon.BalloonProofs Hyper.HyperBatch Hyper.HyperRefine Hyper.HyperRefineSpec Hyper.HyperFind Properties.Instance.
 
 Section C01.
   Variables D E V : Type.
@@ -52,6 +52,49 @@ Section C01.
   Qed.
 End C01.
 
+(* The theorems above speak of the published construction (`hyper_find` over the sparse tree of the map).  The Go code
+   answers a membership query by walking 4-level batches in the cache and the store (balloon/hyper/search.go); that
+   walk, modelled node for node by HyperBatch.bfind and compared with HyperTree.QueryMembership on every run, returns
+   exactly the value and the audit path of the published construction — after every sequence of Add/AddBulk calls. *)
+Section C01b.
+  Variables D E V : Type.
+  Variable H : hin D E V -> D.
+  Variable limit nbits : nat.
+  Hypothesis limit4 : (limit mod 4 = 0)%nat.
+  Hypothesis nbits4 : (nbits mod 4 = 0)%nat.
+  Hypothesis limit_pos : (0 < limit)%nat.
+  Hypothesis limit_lt : (limit < nbits)%nat.
+  Notation ds := (dlist D E V H nbits).
+
+  Theorem C01_hyper_batch_search_is_the_published_search calls key :
+    Forall (fun kvs => kvs <> [] /\ Forall (fun kv => length (fst kv) = nbits) kvs) calls -> length key = nbits ->
+    exists st', hb_run D E V H limit nbits (hinit D V) calls = Some (fst (spec_run D E V H limit nbits [] calls), st') /\
+      hb_find D E V H limit nbits ds st' key =
+        hyper_find D E V H nbits ds (ytree_of D E V H limit nbits ds (snd (spec_run D E V H limit nbits [] calls))) key.
+  Proof. exact (hb_run_find D E V H limit nbits limit4 nbits4 limit_pos limit_lt calls key). Qed.
+
+  (* one query, on any tables that represent a map *)
+  Theorem C01_hyper_search_refines st m key :
+    Represents D E V H limit nbits st m -> length key = nbits ->
+    hb_find D E V H limit nbits ds st key = hyper_find D E V H nbits ds (ytree_of D E V H limit nbits ds m) key.
+  Proof. exact (hb_find_spec D E V H limit nbits limit4 nbits4 limit_pos limit_lt st m key). Qed.
+End C01b.
+
+Definition k8 (n : N) : key := map (fun i => N.testbit n (N.of_nat i)) [7; 6; 5; 4; 3; 2; 1; 0]%nat.
+Example C01b_premises_hold :
+  (4 mod 4 = 0 /\ 8 mod 4 = 0 /\ 0 < 4 /\ 4 < 8)%nat /\
+  Forall (fun kvs : list (key * N) => kvs <> [] /\ Forall (fun kv => length (fst kv) = 8%nat) kvs)
+         [[(k8 200, 0)]; [(k8 201, 1); (k8 17, 2); (k8 17, 3)]] /\ length (k8 201) = 8%nat /\
+  match hb_run D4 E4 N H4 4 8 (hinit D4 N) [[(k8 200, 0)]; [(k8 201, 1); (k8 17, 2); (k8 17, 3)]] with
+  | Some (_, st') => fst (hb_find D4 E4 N H4 4 8 (dlist D4 E4 N H4 8) st' (k8 201)) = Some 1 /\
+                     length (snd (hb_find D4 E4 N H4 4 8 (dlist D4 E4 N H4 8) st' (k8 201))) = 8%nat
+  | None => False
+  end.
+Proof.
+  split; [repeat split; try reflexivity; lia|]. split; [repeat constructor; try discriminate|].
+  split; [reflexivity|]. vm_compute. split; reflexivity.
+Qed.
+
 Example C01_premises_hold :
   reach D4 E4 N H4 4 2 kbits4 vid st2 evs2 /\ N.of_nat (length evs2) < W64 /\
   map_get N (b_hmap D4 N st2) (kbits4 (e4 4)) = Some 1 /\ vid 1 <= 2 /\ 2 < b_version D4 N st2.
@@ -59,3 +102,5 @@ Proof. split; [exact reach_st2|]. repeat split; vm_compute; reflexivity || (intr
 
 Print Assumptions C01_membership_complete.
 Print Assumptions C01_every_event_known.
+Print Assumptions C01_hyper_batch_search_is_the_published_search.
+Print Assumptions C01_hyper_search_refines.
